@@ -30,7 +30,7 @@ func AsmCfg(legacy bool) *rapid.Generator[AsmConfig] {
 		if !legacy {
 			c.NOP94 = rapid.Bool().Draw(t, "nop94")
 		}
-		c.Length = rapid.SampledFrom([]int64{m / 4, m / 3, 100, 20}).Draw(t, "L")
+		c.Length = rapid.SampledFrom([]int64{m / 4, m / 3, 100, 20, 400}).Draw(t, "L")
 		if c.Length > m/2 {
 			c.Length = m / 2
 		}
@@ -168,6 +168,9 @@ func operandExpr(t *rapid.T, sh *progShape, allowEqu []string, depth int) []rc.T
 func Program(t *rapid.T, cfg AsmConfig) rc.Program {
 	sh := &progShape{labelAt: map[string]int{}}
 	sh.n = rapid.IntRange(1, 15).Draw(t, "n")
+	if rapid.IntRange(0, 79).Draw(t, "large") == 0 {
+		sh.n = rapid.IntRange(100, 320).Draw(t, "nlarge") // more than 64 labels, more than 256 lines
+	}
 	if int64(sh.n) > cfg.Length {
 		sh.n = int(cfg.Length)
 	}
